@@ -397,7 +397,8 @@ func init() {
 	register(&vf.Check{
 		ID:        "C07",
 		Technique: "differential runtime monitor: every Decode call compared with an independent RFC 6455 reference parser on exactly the bytes received so far, across whole/every-offset/random/byte-at-a-time splits; canary-poisoned capacity; capacity bound; checkptr build",
-		Rule: "cases = byte strings from four pools (wsref-encoded valid frames over FIN/RSV/opcode 0-15/mask x lengths {0,1,125,126,127,300,65535,65536,max,max+1} in shortest and non-shortest encodings, 1-5 concatenated; one header bit flipped; hostile 64-bit declared lengths {2^31,2^32,2^62,2^63-1,2^63,2^63+5,2^64-14,2^64-1,max+1}; random bytes) x maxMessageSize in {0,125,1024,70000,default}, each fed whole, split at every offset of the first 64 bytes, at random offsets and byte-at-a-time, plus Encode->Decode round trips through the library's Frame API; " +
+		Rule: "feeds are committed piece by piece or completely up front; a third of the identity round trips reuse a Frame object that carried another payload before, a third use a frame about as large as the free room of the destination buffer (fresh, 4096 bytes reserved, or part-filled); " +
+			"cases = byte strings from four pools (wsref-encoded valid frames over FIN/RSV/opcode 0-15/mask x lengths {0,1,125,126,127,300,65535,65536,max,max+1} in shortest and non-shortest encodings, 1-5 concatenated; one header bit flipped; hostile 64-bit declared lengths {2^31,2^32,2^62,2^63-1,2^63,2^63+5,2^64-14,2^64-1,max+1}; random bytes) x maxMessageSize in {0,125,1024,70000,default}, each fed whole, split at every offset of the first 64 bytes, at random offsets and byte-at-a-time, plus Encode->Decode round trips through the library's Frame API; " +
 			"every case is non-trivial (hostile input is the point); distinct = (pool, first header byte, max, outcome shape, split class)",
 		Assumptions: []string{
 			"the decoder validates structure only (reserved bits/opcodes are the stream's job, C15): the reference does the same",
